@@ -22,10 +22,16 @@ pub mod iterator;
 pub(crate) mod allocator;
 #[cfg(not(nomt_verif))]
 mod allocator;
+#[cfg(nomt_verif)]
+pub(crate) mod branch;
+#[cfg(not(nomt_verif))]
 mod branch;
 mod index;
 mod leaf;
 mod leaf_cache;
+#[cfg(nomt_verif)]
+pub(crate) mod ops;
+#[cfg(not(nomt_verif))]
 mod ops;
 
 mod writeout;
